@@ -236,9 +236,9 @@ def scn_steps(T, case):
 def cases_filters_and_failures(tier):
     from contracts import C02
 
-    for cid, c in C02.cases_rows(tier):
-        if c.get("fail_real") is not None or c.get("fail_pert") is not None:
-            yield cid, c
+    # every weight-row case: the function VALUES of objectives and constraints use the weights in force for that function, with
+    # a filter map on the objectives only, on the constraints only, on both, and with failed realizations
+    yield from C02.cases_rows(tier)
 
 
 def scn_filters_and_failures(T, case):
